@@ -157,6 +157,14 @@ def judge_sequence(cfg, attempts, ended, horizon=None, stop_at=None):
                 problems.append(("too-many-attempts", "joined-before" if st.joined_before[idx] else "plain",
                                  "attempt %d on transport %d exceeds its budget (expected transport %d)" % (
                                      i, idx, eidx), idx))
+            elif st.joined_before[eidx]:
+                # the expected transport was passed over although, counted from its last join, it
+                # has attempts left: the budget clause (R2/R5), not the order, is what is broken
+                problems.append(("no-retry-although-budget", "joined-before|transport-skipped",
+                                 "attempt %d went to transport %d; transport %d was passed over although it "
+                                 "has made only %d attempt(s) since its last successful join (max_retries %s)"
+                                 % (i, idx, eidx, st.since_join[eidx],
+                                    cfg["transports"][eidx].get("max_retries", -1)), eidx))
             else:
                 problems.append(("round-robin", "expected-%d-got-%d" % (eidx, idx),
                                  "attempt %d went to transport %d, round robin over the transports "
@@ -174,6 +182,9 @@ def judge_sequence(cfg, attempts, ended, horizon=None, stop_at=None):
             elif wait < 0:
                 problems.append(("negative-wait", "retry", "attempt %d started before the previous "
                                                              "one ended" % i, idx))
+        if outcome is None:
+            # attempt started but not answered (exploration horizon): nothing after it is judged
+            return problems, st, ("unknown",)
         st.apply(idx, outcome)
     exp = st.next()
     if stop_at is not None:
@@ -186,7 +197,7 @@ def judge_sequence(cfg, attempts, ended, horizon=None, stop_at=None):
         if not ended.get("truncated"):
             prev = judged[-1][1] if judged else "-"
             problems.append(("no-retry-although-budget",
-                             ("joined-before" if st.joined_before[exp[1]] else "plain") + "|after-" + prev,
+                             ("joined-before" if st.joined_before[exp[1]] else "plain") + "|gave-up",
                              "after %d attempts transport %d still has attempts left (%d since its last "
                              "join, max_retries %s) but no new attempt was made; start() result: %s" % (
                                  len(judged), exp[1], st.since_join[exp[1]],
